@@ -157,8 +157,25 @@ def near_boundary(a, b, ws, exact):
 # generator of machines
 # ----------------------------------------------------------------------------------------------------------------
 ROW_KINDS_OK = ["valid", "valid", "valid", "valid", "sole_one", "one_plus", "zeros", "eq_draw", "eq_draw", "eq_draw_off",
-                "half_half", "tiny_over", "sparse"]
-ROW_KINDS_BAD = ["two_ones", "zeros", "over"]
+                "half_half", "tiny_over", "sparse", "tol_in", "tol_in", "near_one", "tiny"]
+ROW_KINDS_BAD = ["two_ones", "zeros", "over", "tol_out", "tol_out", "tol_out"]
+
+# The numeric thresholds of _normalize_probabilities, hit on BOTH sides and at several scales, from exactly representable parts:
+#   total > 1 + 1e-08 (the DOUBLE 1 + 1e-08 = 1 + TOL_EXCESS / 2^53 exactly): totals 1 + e / 2^53 with e even (doubles in
+#   [1, 2) are multiples of 2^-52), so that the float sum is exact and the exact-rational model decides;
+#   probabilities == 1: entries 1 - 2^-53 and 1; total == 0: a single entry 2^-53.
+TOL_EXCESS = int((Fraction(1 + 1e-08) - 1) * B53)               # 90071992: the tolerance itself, in units of 2^-53
+assert Fraction(1 + 1e-08) == 1 + Fraction(TOL_EXCESS, B53) and TOL_EXCESS % 2 == 0
+
+
+def _even(x):
+    x = int(x)
+    return x - (x % 2)
+
+
+TOL_INSIDE = [TOL_EXCESS, TOL_EXCESS - 2, TOL_EXCESS // 2, _even(TOL_EXCESS * 0.9), 2 ** 23, 2]
+TOL_OUTSIDE = [TOL_EXCESS + 2, TOL_EXCESS + 4, _even(TOL_EXCESS * 1.1), 2 * TOL_EXCESS, 10 * TOL_EXCESS, 100 * TOL_EXCESS,
+               500 * TOL_EXCESS, 1000 * TOL_EXCESS, 10000 * TOL_EXCESS]
 
 
 def gen_row(rng, ntr, null, kind):
@@ -211,6 +228,15 @@ def gen_row(rng, ntr, null, kind):
         for j in rng.sample(range(ntr), min(2, ntr)):
             ks[j] = 8
         return {"kind": kind, "k": ks}
+    if kind in ("tol_in", "tol_out"):
+        # total = 1 + excess / 2^53 (meaningful with a null transition; otherwise the row is simply renormalised)
+        return {"kind": kind, "k": [0] * ntr, "excess": rng.choice(TOL_INSIDE if kind == "tol_in" else TOL_OUTSIDE),
+                "pos": rng.sample(range(ntr), min(ntr, rng.choice([1, 2, 2, 3])))}
+    if kind == "near_one":
+        # 1 - 2^-53 is NOT the default-transition marker 1; optionally topped up to a total of exactly 1 by a 2^-53 entry
+        return {"kind": kind, "k": [0] * ntr, "pos": rng.sample(range(ntr), min(ntr, 2)), "top_up": rng.random() < 0.5}
+    if kind == "tiny":
+        return {"kind": kind, "k": [0] * ntr, "pos": [rng.randrange(ntr)]}       # total 2^-53: not zero
     if kind == "tiny_over":
         # 1/2 and 1/2 + 2^-30: total 1 + 2^-30 <= 1 + 1e-08 is accepted with a null transition (weight clipped to 0)
         return {"kind": kind, "k": [0] * ntr, "pos": rng.sample(range(ntr), min(2, ntr))}
@@ -239,6 +265,27 @@ def resolve_row(row, a, null):
             others = [j for j in range(ntr) if nums[j] == 0 and j > pos] or [j for j in range(ntr) if nums[j] == 0]
             if others:
                 nums[others[0]] = rest
+        return nums
+    if kind in ("tol_in", "tol_out"):
+        nums = [0] * ntr
+        ps, e = row["pos"], row["excess"]
+        if len(ps) == 1:
+            nums[ps[0]] = B53 + e
+        elif len(ps) == 2:
+            nums[ps[0]], nums[ps[1]] = B53 // 2, B53 // 2 + e
+        else:
+            nums[ps[0]], nums[ps[1]], nums[ps[2]] = B53 // 4, B53 // 4, B53 // 2 + e
+        return nums
+    if kind == "near_one":
+        nums = [0] * ntr
+        ps = row["pos"]
+        nums[ps[0]] = B53 - 1
+        if row.get("top_up") and len(ps) > 1:
+            nums[ps[1]] = 1
+        return nums
+    if kind == "tiny":
+        nums = [0] * ntr
+        nums[row["pos"][0]] = 1
         return nums
     if kind == "tiny_over":
         nums = [0] * ntr
@@ -272,7 +319,7 @@ def gen_machine(rng):
             trans.append({"to": t, "trigger": trig})
         states.append({"null": rng.random() < 0.5, "transient": transient[i], "trans": trans})
     n = rng.choice([1, 2, 3, 4, 5, 6, 8, 10])
-    bad_case = rng.random() < 0.15
+    bad_case = rng.random() < 0.2
     ncalls = rng.choice([1, 1, 2])
     # common random numbers: key columns registered with the randomness manager (the draw of a simulant is then looked up
     # through the IndexMap by ITS key, whatever the order of the request)
@@ -288,12 +335,14 @@ def gen_machine(rng):
             per = []
             for l in range(nc):
                 if bad_budget and rng.random() < 0.15:
-                    kind = rng.choice(ROW_KINDS_BAD); bad_budget -= 1
+                    kind = rng.choice(ROW_KINDS_BAD + (["tol_out"] * 4 if s["null"] else [])); bad_budget -= 1
+                    if kind == "tol_out" and not s["null"]:
+                        kind = "two_ones"
                 else:
                     kind = rng.choice(ROW_KINDS_OK)
                     if kind == "zeros" and not s["null"]:
                         kind = "valid"
-                    if kind == "tiny_over" and not s["null"]:
+                    if kind in ("tiny_over", "tol_in") and not s["null"]:
                         kind = "half_half"
                 per.append(gen_row(rng, len(s["trans"]), s["null"], kind))
             rows.append(per)
@@ -822,19 +871,23 @@ def gen_tset(rng):
         trans.append({"trigger": trig, "ops": ops, "to": j})
     if ntr >= 2 and rng.random() < 0.04:
         trans[rng.randrange(1, ntr)]["to"] = 0         # two transitions into the same output: pd.Categorical refuses it
-    bad = rng.random() < 0.12
+    bad = rng.random() < (0.35 if (D == B53 and null) else 0.12)
     fg = rng.random() < 0.10
     rows, draws = [], []
     bad_budget = 1 if bad else 0
     for l in labels:
+        fine = D == B53                      # the threshold rows need the 2^-53 grid
         if bad_budget and rng.random() < 0.3:
-            kind = rng.choice(ROW_KINDS_BAD); bad_budget -= 1
+            kind = rng.choice(ROW_KINDS_BAD + (["tol_out"] * 6 if (fine and null) else [])); bad_budget -= 1
+            if kind == "tol_out" and not (fine and null):
+                kind = "two_ones"
         else:
-            kind = rng.choice(["valid", "valid", "valid", "sole_one", "one_plus", "zeros", "half_half", "sparse"])
-            if kind == "zeros" and not null:
+            kind = rng.choice(["valid", "valid", "valid", "sole_one", "one_plus", "zeros", "half_half", "sparse"] +
+                              (["tol_in", "tol_in", "near_one", "tiny"] if fine else []))
+            if kind in ("zeros", "tol_in") and not null:
                 kind = "valid"
         row = gen_row(rng, ntr, null, kind)
-        nums = [k * (D // 16) for k in row["k"]]
+        nums = resolve_row(row, 0, null) if kind in ("tol_in", "tol_out", "near_one", "tiny") else [k * (D // 16) for k in row["k"]]
         ws = py_weights(nums, D, null)
         # boundary-rich draws: exactly a cumulative bound, one step off it, 0, the largest draw, or anything
         r = rng.random()
@@ -1011,6 +1064,13 @@ def run_tset(case):
         tags.append("float_corner_indexerror")
     if any(t["trigger"] for t in case["trans"]):
         tags.append("triggered")
+    if D == B53 and null:
+        for r_ in case["rows"]:
+            ex = sum(r_) - D
+            if 0 < ex <= 10000 * TOL_EXCESS and D not in r_:
+                tags.append("total_just_above_1_" + ("accepted" if ex <= TOL_EXCESS else "rejected"))
+                if ex in (TOL_EXCESS, TOL_EXCESS + 2, TOL_EXCESS - 2):
+                    tags.append("total_at_tolerance_pm_ulp")
     return Result(ok=ok, msg="; ".join(msgs + fg_msgs), coq=coq, key=case if labels else None,
                   obs={"code": code, "decided": decided, "error": repr(err)[:160] if err else None,
                        "fg_only": bool(fg_msgs) and not msgs}, tags=tuple(tags))
